@@ -46,6 +46,9 @@ func runC16(w *World) *Result {
 		}
 		return false
 	})
+	r.Rule("R-C16-defined", "every function a script can call is defined in it: call edges are recorded at the construction of call nodes, merged completely across imports, and removal follows their closure", 5)
+	c09Edge(w, r, "R-C16-defined")
+	c09Merge(w, r, "R-C16-defined")
 	for _, role := range []string{"bash", "batch"} {
 		b, err := BuildBackend(w, role)
 		if err != nil {
